@@ -471,8 +471,6 @@ func c9SerStage(p *logql_parser.StrSelectorPipeline) (string, error) {
 			return "", fmt.Errorf("parser %s", p.Parser.Fn)
 		}
 		var parts []string
-		fields := map[string]string{}
-		var order []string
 		for _, pp := range p.Parser.ParserParams {
 			if pp.Label == nil {
 				return "", fmt.Errorf("parameter without a label")
@@ -498,28 +496,15 @@ func c9SerStage(p *logql_parser.StrSelectorPipeline) (string, error) {
 			if len(segs) > 0 {
 				pth = strings.Join(segs, "/")
 			}
-			parts = append(parts, hx(pp.Label.Name)+"="+pth)
-			if len(path) > 0 {
-				if s, ok := path[0].(string); ok {
-					if _, seen := fields[s]; !seen {
-						order = append(order, s)
-					}
-					fields[s] = pp.Label.Name // map assignment: the later parameter wins
-				}
-			}
+			parts = append(parts, hx(pp.Label.Name)+"="+pth+"="+hx(v))
 		}
+		// the parameters go to the model as the code gets them (names, typed paths, in source order); what
+		// Process makes of them (aheads, logfmtFields) is the model's business (Read.planParser, paramFields)
 		switch p.Parser.Fn {
 		case "json":
 			return "P:jsonp:" + strings.Join(parts, ","), nil
 		case "logfmt":
-			fs := make([]string, len(order))
-			for i, k := range order {
-				fs[i] = hx(k) + "=" + hx(fields[k])
-			}
-			if len(fs) == 0 {
-				return "P:logfmtp:_", nil
-			}
-			return "P:logfmtp:" + strings.Join(fs, ","), nil
+			return "P:logfmtp:" + strings.Join(parts, ","), nil
 		}
 		return "", fmt.Errorf("parser %s", p.Parser.Fn)
 	case p.LabelFormat != nil:
@@ -909,9 +894,35 @@ func c9GenJsonObj(r *h.Rng, depth int, sb *strings.Builder) {
 				sb.WriteString(" ")
 			}
 		}
-		sb.WriteString(q(h.Pick(r, c9Keys)))
+		key := h.Pick(r, c9Keys)
+		sb.WriteString(q(key))
 		sb.WriteString(":")
-		c9GenJsonVal(r, depth, sb)
+		switch {
+		case (key == "x" || key == "y") && depth > 0 && r.Chance(60): // the nested paths of the json parameters lead somewhere
+			if key == "y" && r.Chance(50) {
+				sb.WriteString("[")
+				for j, m := 0, r.Range(1, 3); j < m; j++ {
+					if j > 0 {
+						sb.WriteString(",")
+					}
+					c9GenJsonObj(r, 0, sb)
+				}
+				sb.WriteString("]")
+			} else {
+				c9GenJsonObj(r, depth-1, sb)
+			}
+		case key == "b" && depth > 0 && r.Chance(50):
+			sb.WriteString("[")
+			for j, m := 0, r.Range(0, 3); j < m; j++ {
+				if j > 0 {
+					sb.WriteString(",")
+				}
+				c9GenJsonVal(r, 0, sb)
+			}
+			sb.WriteString("]")
+		default:
+			c9GenJsonVal(r, depth, sb)
+		}
 	}
 	sb.WriteString("}")
 }
@@ -986,7 +997,7 @@ func c9GenLabelCond(r *h.Rng, depth int) string {
 }
 
 func c9GenStage(r *h.Rng, tpls *[]c9Tpl) string {
-	switch r.Intn(12) {
+	switch r.Intn(15) {
 	case 0, 1:
 		op := h.Pick(r, []string{"|=", "!=", "|~", "!~"})
 		v := h.Pick(r, []string{"b", "a", "5", "err", "\"", "x", "", "boom", "v="})
@@ -998,23 +1009,28 @@ func c9GenStage(r *h.Rng, tpls *[]c9Tpl) string {
 		return "| " + c9GenLabelCond(r, 2)
 	case 4:
 		return "| json"
-	case 5:
-		n := r.Range(1, 3)
+	case 5, 12, 13:
+		// any number of parameters; names may repeat (the engine sets them in document order), may be stream
+		// labels ("a", "lvl", "v", "ab", "x" occur in the generated streams), paths may be prefixes of each other
+		n := h.Pick(r, []int{1, 1, 2, 2, 3, 4, 5})
 		var ps []string
-		used := map[string]bool{}
 		for i := 0; i < n; i++ {
-			path := h.Pick(r, []string{"a", "v", "x.y", "x.z[0]", "ab", "msg", "[\"k 1\"]", "x", "n", "x.y.z", "b[1]", "K"})
-			lbl := h.Pick(r, []string{"a", "p", "q", "v", "lvl"})
-			if used[lbl] { // the same label twice: set in document order by the engine, in parameter order by LogQL
-				continue
-			}
-			used[lbl] = true
+			path := h.Pick(r, []string{"a", "v", "x.y", "x.z[0]", "ab", "msg", "[\"k 1\"]", "x", "n", "x.y.z", "b[1]", "K", "b", "lvl", "y", "x.a", "x.b", "b[0]", "[0]", "y.a", "x[\"k.1\"]", "y[1].a"})
+			lbl := h.Pick(r, []string{"a", "p", "q", "v", "lvl", "p", "q", "ab", "x"})
 			ps = append(ps, lbl+"="+q(path))
 		}
 		return "| json " + strings.Join(ps, ", ")
-	case 6:
-		if r.Chance(30) {
-			return "| logfmt " + h.Pick(r, []string{"a", "p", "lvl"}) + "=" + q(h.Pick(r, []string{"a", "v", "msg", "lvl"}))
+	case 6, 14:
+		if r.Chance(55) {
+			// logfmt with parameters: several may name the same key (the later wins), an index-first expression
+			// names no key, a longer path counts by its first segment
+			n := h.Pick(r, []int{1, 1, 2, 3, 4})
+			var ps []string
+			for i := 0; i < n; i++ {
+				expr := h.Pick(r, []string{"a", "v", "msg", "lvl", "a", "v", "ab", "n", "x.y", "[0]", "[\"k-1\"]", "b[1]", "k_1"})
+				ps = append(ps, h.Pick(r, []string{"a", "p", "lvl", "q", "p", "v"})+"="+q(expr))
+			}
+			return "| logfmt " + strings.Join(ps, ", ")
 		}
 		return "| logfmt"
 	case 7:
@@ -1461,6 +1477,14 @@ func c9Judge(r *h.Result, gens []*c9Gen) error {
 		bpOps = append(bpOps, "c09bp "+tags+" 0")
 		bpImpl = append(bpImpl, fmt.Sprintf("%d|%d|%s", o.Bp, ch, internal))
 		bpCases = append(bpCases, map[string]any{"query": gens[gi].Case.Query})
+		if o.Plan != "" && o.Internal > 0 {
+			// the stages left in the script after Plan: their tags as the model sees them (Read.StageK.tag) are the
+			// tail of the tags GetBreakpoint saw, and splitting them again cuts at 0 (Read.splitPipeline)
+			all := strings.Split(o.Tags, ",")
+			bpOps = append(bpOps, "c09tags "+strings.SplitN(o.Plan, " ", 2)[0])
+			bpImpl = append(bpImpl, fmt.Sprintf("%s|0|%d", strings.Join(all[len(all)-o.Internal:], ","), o.Internal))
+			bpCases = append(bpCases, map[string]any{"query": gens[gi].Case.Query, "plan": o.Plan})
+		}
 	}
 	if err := r.Compare("split", bpOps, bpImpl, bpCases); err != nil {
 		return err
@@ -1505,13 +1529,27 @@ func c9Judge(r *h.Result, gens []*c9Gen) error {
 				}
 				t.tpl[hx(tp.text)] = toks
 			}
+			cutJson, cutLogfmt := false, false
 			for _, b := range g.Case.Batching[0] {
 				for _, e := range b {
 					if e.Err == "" {
 						t.js[hx(e.Msg)] = c9Json(e.Msg)
 						t.lf[hx(e.Msg)] = c9Logfmt(e.Msg)
+						// a line the decoder gives up on after it has already delivered scalars / pairs
+						if js := t.js[hx(e.Msg)]; strings.Contains(js, ",B") && (strings.Contains(js, ",S") || strings.Contains(js, ",R")) {
+							cutJson = true
+						}
+						if logfmt.Unmarshal([]byte(e.Msg), &c9LogfmtRec{}) != nil && t.lf[hx(e.Msg)] != "_" {
+							cutLogfmt = true
+						}
 					}
 				}
+			}
+			if cutJson {
+				r.Count("input:json-line-fails-after-labels-were-extracted")
+			}
+			if cutLogfmt {
+				r.Count("input:logfmt-line-fails-after-pairs-were-extracted")
 			}
 			tablesOf[gi] = t
 		}
@@ -1609,6 +1647,28 @@ func c9Judge(r *h.Result, gens []*c9Gen) error {
 			}
 			for _, tg := range strings.Split(p.plan, " ")[0:1] {
 				for _, st := range strings.Split(tg, ";") {
+					if f := strings.SplitN(st, ":", 3); len(f) == 3 && (f[1] == "jsonp" || f[1] == "logfmtp") {
+						ps := strings.Split(f[2], ",")
+						names, firsts := map[string]int{}, map[string]int{}
+						for _, pr := range ps {
+							nv := strings.SplitN(pr, "=", 2)
+							names[nv[0]]++
+							firsts[strings.SplitN(strings.SplitN(nv[1], "=", 2)[0], "/", 2)[0]]++
+						}
+						r.Count(fmt.Sprintf("params:%s:n=%d", f[1], min(len(ps), 4)))
+						if len(names) < len(ps) && nontrivial {
+							r.Count("params:" + f[1] + ":name-repeated")
+						}
+						if len(firsts) < len(ps) && nontrivial {
+							r.Count("params:" + f[1] + ":first-segment-shared")
+						}
+						for nm := range names {
+							if nontrivial && (nm == hx("a") || nm == hx("lvl") || nm == hx("v") || nm == hx("ab") || nm == hx("x")) {
+								r.Count("params:" + f[1] + ":names-a-stream-label")
+								break
+							}
+						}
+					}
 					r.Count("stage:" + strings.SplitN(st, ":", 3)[0] + func() string {
 						if strings.HasPrefix(st, "P:") {
 							return ":" + strings.SplitN(st, ":", 3)[1]
@@ -1671,7 +1731,7 @@ func c9Key(g *c9Gen, got, want string) string {
 
 func c09(r *h.Result, rng *h.Rng, tier string, replay string) error {
 	r.Rule = "grammar-directed LogQL scripts that force the in-process engine (| json, | logfmt or | line_format, then 0–3 further stages: " +
-		"line/label filters, json with paths, logfmt, label_format, line_format, drop; log queries with limits 0/1/2/3/10/100/5000, range, unwrap (by/without) " +
+		"line/label filters, json with 1–5 path parameters (repeated names, names of stream labels, nested/prefix paths, indexes), logfmt with 0–4 parameters, label_format, line_format, drop; log queries with limits 0/1/2/3/10/100/5000, range, unwrap (by/without) " +
 		"and vector aggregations with comparisons) over 1–4 series of JSON (valid, nested, arrays, truncated, broken literal, non-object, trailing text), " +
 		"logfmt (bare keys, quoted, unterminated) or plain lines; timestamps biased to window and bucket edges (from, to, last bucket end, before from); " +
 		"streams end with the getter's EOF marker (80 %), nothing, or an upstream error; each flat list is fed in several batchings incl. empty batches. " +
@@ -1709,6 +1769,9 @@ func c09(r *h.Result, rng *h.Rng, tier string, replay string) error {
 		return c9Judge(r, []*c9Gen{g})
 	}
 	rng = h.NewRng(rng.U64() ^ 0xC09C09C09) // h.NewRng(s) and h.NewRng(s+1) are one step apart: re-seed from an output
+	if err := c9PathStream(r, rng.Fork(), map[bool]int{true: 1500, false: 20000}[tier == "quick"]); err != nil {
+		return err
+	}
 	nCases, nBatchings, maxEntries := 1200, 3, 60
 	if tier != "quick" {
 		nCases, nBatchings, maxEntries = 8000, 8, 60
@@ -1736,6 +1799,83 @@ func c09(r *h.Result, rng *h.Rng, tier string, replay string) error {
 		}
 		if err := c9Judge(r, gens[lo:hi]); err != nil {
 			return err
+		}
+	}
+	return nil
+}
+
+// c9PathText: a parameter path from the grammar of shared/path_parser.go, with noise
+func c9PathText(r *h.Rng) string {
+	var sb strings.Builder
+	n := h.Pick(r, []int{0, 1, 1, 2, 2, 3, 4, 6})
+	for i := 0; i < n; i++ {
+		if r.Chance(8) {
+			sb.WriteString(h.Pick(r, []string{" ", "\t", "  "}))
+		}
+		switch k := r.Intn(20); {
+		case k < 7:
+			if i > 0 || r.Chance(20) {
+				sb.WriteString(".")
+			}
+			sb.WriteString(h.Pick(r, []string{"a", "x", "y", "msg", "k_1", "_", "A9", "lvl", "b"}))
+		case k < 9:
+			sb.WriteString(h.Pick(r, []string{"a", "x", "zz"})) // an identifier without the dot (allowed: `Dot?`)
+		case k < 13:
+			sb.WriteString("[" + h.Pick(r, []string{"0", "1", "2", "10", "007", "99999", "123456789012345678", "1234567890123456789", "-1", "1.5", "0x1f", "1e3", "1a"}) + "]")
+		case k < 16:
+			sb.WriteString("[" + h.Pick(r, []string{`"k 1"`, `"a"`, `""`, "`k.1`", `"x.y"`, `"a\"b"`, `"tab\t"`, "`a\"b`", `"é"`, `"q"`}) + "]")
+		case k < 17:
+			sb.WriteString(h.Pick(r, []string{"[", "]", ".", "..", "[]", "[a]", "[\"a\"", "]]"}))
+		case k < 18:
+			sb.WriteString(h.Pick(r, []string{"-", "*", "$", "@", "#", "(", "=", ","}))
+		default:
+			sb.WriteString(h.Pick(r, []string{"//c", "/*c*/", "'c'", "a.1", ".5", "é", "\x01", "\n", "a/b"}))
+		}
+	}
+	return sb.String()
+}
+
+// c9PathStream: shared.JsonPathParamToTypedArray vs Read.parsePath (driver op c09path); texts the model declares
+// outside its fragment are counted, not compared
+func c9PathStream(r *h.Result, rng *h.Rng, n int) error {
+	r.Stream("path: shared.JsonPathParamToTypedArray on generated parameter texts (grammar of path_parser.go with noise) vs Read.parsePath")
+	texts := []string{"a", "x.y", "x.z[0]", `["k 1"]`, "b[1]", "", ".", "a.", ".a", "a b", "[0]", "a[", "a..b", "[\"a\"][1].c", "`r`", "[`r`]"}
+	for len(texts) < n {
+		texts = append(texts, c9PathText(rng))
+	}
+	ops := make([]string, len(texts))
+	for i, t := range texts {
+		ops[i] = "c09path " + hx(t)
+	}
+	ans, err := h.Model(ops)
+	if err != nil {
+		return err
+	}
+	for i, t := range texts {
+		impl := "err"
+		if path, err := shared.JsonPathParamToTypedArray(t); err == nil {
+			segs := make([]string, len(path))
+			for j, s := range path {
+				switch x := s.(type) {
+				case string:
+					segs[j] = "k" + hx(x)
+				case int:
+					segs[j] = "i" + strconv.Itoa(x)
+				}
+			}
+			impl = "ok:_"
+			if len(segs) > 0 {
+				impl = "ok:" + strings.Join(segs, "/")
+			}
+		}
+		if ans[i] == "outside" {
+			r.Count("path:outside-fragment")
+			continue
+		}
+		r.Case("path|"+t, strings.HasPrefix(impl, "ok"))
+		r.Count("path:" + strings.SplitN(impl, ":", 2)[0])
+		if impl != ans[i] {
+			r.Disagree("path", ops[i], impl, ans[i], map[string]any{"text": t})
 		}
 	}
 	return nil
@@ -1801,6 +1941,13 @@ func c9Corpus() []*c9Gen {
 		// equal label sets reached from different streams are one series
 		c9Fixed(`count_over_time({x="y"} | json | label_format a="k" [1m])`, base, base+60e9, 100, []c9Entry{{Ts: base + 3, Fp: 1, Labels: x, Msg: `{"a":"1"}`}, {Ts: base + 2, Fp: 1, Labels: x, Msg: `{"a":"2"}`}, eof}),
 		c9Fixed(`count_over_time({x="y"} | json | drop a [1m])`, base, base+60e9, 100, []c9Entry{{Ts: base + 3, Fp: 1, Labels: x, Msg: `{"a":"1"}`}, {Ts: base + 2, Fp: 1, Labels: x, Msg: `{}`}, eof}),
+		// json with several parameters: one name twice (document order decides), a stream label overwritten, a path that
+		// is a prefix of another, the same path under two names, an index, a key that occurs twice, a document cut in the middle
+		c9Fixed(`{x="y"} | json | json p="a", p="b"`, base, base+100e9, 100, []c9Entry{{Ts: base + 3, Fp: 1, Labels: x, Msg: `{"b":"1","a":"2"}`}, {Ts: base + 2, Fp: 1, Labels: x, Msg: `{"a":"3","b":"4"}`}, {Ts: base + 1, Fp: 1, Labels: x, Msg: `{"a":"5"}`}, eof}),
+		c9Fixed(`{x="y"} | json | json x="a", q="a", r="c.d", s="c.d[1]", t="c"`, base, base+100e9, 100, []c9Entry{{Ts: base + 3, Fp: 1, Labels: x, Msg: `{"a":"1","c":{"d":[7,8]},"a":"2"}`}, {Ts: base + 2, Fp: 1, Labels: x, Msg: `{"c":{"d":"s"},"c":"t"}`}, {Ts: base + 1, Fp: 1, Labels: x, Msg: `{"c":{"d":[7,8`}, eof}),
+		c9Fixed(`count_over_time({x="y"} | json | json x="a", x="b" [1m])`, base, base+60e9, 100, []c9Entry{{Ts: base + 3, Fp: 1, Labels: x, Msg: `{"b":"1","a":"2"}`}, {Ts: base + 2, Fp: 1, Labels: x, Msg: `{"a":"2","b":"1"}`}, {Ts: base + 1, Fp: 1, Labels: x, Msg: `{"a":"2","b":tru`}, eof}),
+		// logfmt with several parameters: two names for one key (the later wins), an index-first expression, a longer path
+		c9Fixed(`{x="y"} | logfmt p="a", q="a", r="[0]", s="b.c", x="d"`, base, base+100e9, 100, []c9Entry{{Ts: base + 3, Fp: 1, Labels: x, Msg: `a=1 b=2 d=3`}, {Ts: base + 2, Fp: 1, Labels: x, Msg: `b=5 a="6`}, eof}),
 	}...)
 }
 
